@@ -85,6 +85,7 @@ pub struct OpRec {
     pub runner: Option<TaskId>,
     pub runner_pool: bool,
     pub blocks_in_call: u64,
+    pub blocks_inside: u64,
     pub handle: Option<usize>,
     pub waiting_gate: Option<usize>,
     pub nested_in: Option<u32>,
@@ -107,6 +108,8 @@ pub struct HandleRec {
     pub wakes: u32,
     pub panicked: Option<String>,
     pub resumed_at: Option<u64>,
+    /// waited for with SchedulerFuture::sync(): a sync call, which also waits for whatever was queued before it
+    pub sync_wait: bool,
 }
 
 pub enum HandleSlot {
@@ -289,6 +292,10 @@ pub fn me() -> TaskId {
 }
 
 pub fn ev(code: &'static str, a: i64, b: i64) -> u64 {
+    if !rt::kernel::in_sim() {
+        // leftovers of a finished world being dropped outside it: nothing to record
+        return u64::MAX;
+    }
     let s = seq();
     let t = me() as u32;
     w().events.push(Event { seq: s, task: t, code, a, b });
@@ -345,6 +352,7 @@ impl World {
                 runner: None,
                 runner_pool: false,
                 blocks_in_call: 0,
+                blocks_inside: 0,
                 handle: None,
                 waiting_gate: None,
                 nested_in: None,
@@ -398,6 +406,7 @@ impl World {
             wakes: 0,
             panicked: None,
             resumed_at: None,
+            sync_wait: false,
         };
         World {
             objs: (0..prog.n_objs)
@@ -470,6 +479,9 @@ pub struct Val {
 
 impl Drop for Val {
     fn drop(&mut self) {
+        if !rt::kernel::in_sim() {
+            return;
+        }
         let s = ev("value_dropped", self.o as i64, 0);
         let world = w();
         let slot = &mut world.objs[self.o];
@@ -495,6 +507,9 @@ pub struct Probe(pub u32);
 
 impl Drop for Probe {
     fn drop(&mut self) {
+        if !rt::kernel::in_sim() {
+            return;
+        }
         let s = ev("closure_dropped", self.0 as i64, 0);
         let r = &mut w().ops[self.0 as usize];
         r.closure_drops += 1;
@@ -633,6 +648,9 @@ pub struct SimStream {
 
 impl Drop for SimStream {
     fn drop(&mut self) {
+        if !rt::kernel::in_sim() {
+            return;
+        }
         let sq = ev("stream_dropped", self.s as i64, 0);
         let st = &mut w().streams[self.s];
         st.drops += 1;
